@@ -62,3 +62,25 @@ def probes(R, drive_mode="parse"):
         if still:
             R.known.append(k)
             print("KNOWN-FINDING: property=%s %s" % (R.prop, k["what"]), flush=True)
+
+
+def deep(maxdepth=12):
+    """nested chains of each compound command, multi-line, depth 1..maxdepth (the printer indents by level)"""
+    kinds = {
+        "grp": ("{\n", "\n}"), "sub": ("(\n", "\n)"), "if": ("if a\nthen\n", "\nfi"), "while": ("while a\ndo\n", "\ndone"),
+        "for": ("for x in a\ndo\n", "\ndone"), "case": ("case a in\np)\n", "\n;;\nesac"), "cs": ("a $(\n", "\n)"),
+        "fn": ("f() {\n", "\n}"),
+    }
+    out = []
+    names = sorted(kinds)
+    for d in range(1, maxdepth + 1):
+        for k in names:
+            o, c = kinds[k]
+            out.append(dict(src=o * d + "a" + c * d + "\n", kind="deep-%s-%d" % (k, d)))
+        # mixed chain
+        src = "a"
+        for i in range(d):
+            o, c = kinds[names[i % len(names)]]
+            src = o + src + c
+        out.append(dict(src=src + "\n", kind="deep-mixed-%d" % d))
+    return out
